@@ -6,19 +6,37 @@ RULE = ("logical documents of the shared subset (strings, ints, yes/no, n/8 floa
         "objects, map-like objects, duplicate keys, ghost objects) rendered as text (4 layouts x {windows-1252, utf-8}) and as binary "
         "(keys/values as resolvable token ids or quoted/unquoted strings, I32/U32/U64, BOOL, F32/F64 under the matching flavor, rgb "
         "blocks, dates as I32 or string) x typed shapes (full, partial, duplicated/take-last, Option, enum, tuples for rgb) x "
-        "{text slice, text reader} x {binary tape, on-demand, stream}.  non-trivial = a value came out on both sides")
+        "{text slice, text reader} x {binary tape, on-demand, stream}.  non-trivial = a value came out on both sides.  "
+        # [spec_tie]
+        "spec_tie: every generated document is converted to a Coq LogicDoc.ldoc plus an encoding choice (props/spectie.py) and the EXTRACTED "
+        "LogicDoc.to_text / to_bin are run: BinDoc.enc_doc (to_bin e d) must reproduce dedoc.render_bin byte for byte (all documents), "
+        "TextDoc.render (to_text d) must reproduce dedoc.render_text where the rendering is of that form (~53%: no ghost {} and no `key {` "
+        "without `=`); TextDeSpec.spec_value on to_text d, BinDoc.spec_value on to_bin e d and dedoc.expected must be equal, the text paths "
+        "must return the former and the binary paths the latter; plus hand-made pairs from corpus/C10/spec_tie.case")
 TRUSTED = ["serde's primitive visitors; the flavor arithmetic is recomputed exactly in Python",
-           "Date::from_binary / Date::parse agreement is C13 (proved there); here it is exercised through both deserializers"]
+           "Date::from_binary / Date::parse agreement is C13 (proved there); here it is exercised through both deserializers",
+           # [spec_tie]
+           "spec_tie: LogicDoc.to_text / to_bin are now extracted and corresponded with props/dedoc.py's renderers on every run (they no longer "
+           "mirror them by construction only), and both Coq specifications are compared with dedoc.expected and with the implementation.  "
+           "LogicDoc.shared and enc_ok are Props (Prop-valued fixpoints with an existential in float_ok): extraction erases them, they are NOT "
+           "run; what is run instead is the conclusion of C10_spec_of_agree (the two specifications agree) on every document whose Python "
+           "criterion of sharedness holds (dedoc.expected(text) = dedoc.expected(binary) != unfit).  Still Python-only: that criterion, the "
+           "conversion dedoc -> ldoc / encoding choice (props/spectie.py to_logicdoc; checked by the byte-for-byte comparisons), the generators"]
 ASSUMPTIONS = ["shared subset: every token id is resolvable, no operators other than '=', no Property/any targets (text scalars are strings for a "
                "dynamically shaped target, binary scalars are typed - by design), floats are n/8 with at most 3 decimals so that both "
                "renderings denote the same f32/f64 (`float_shared`), integers that text would refuse as f64 (> 2^53) are skipped and counted",
-               "I64 tokens excluded (C03 finding B), rgb is not an array element (text arrays split header and block)"]
+               "I64 tokens excluded (C03 finding B), rgb is not an array element (text arrays split header and block)",
+               # [spec_tie]
+               "spec_tie scope: the text specification answers UNFIT where a colour is visited (TextDeSpec has no headers) and for a map / struct "
+               "target on the empty `{ }` (an array in TextDoc); there only the binary specification is compared (counted as tie_text_coq_unfit_*). "
+               "The text PATHS are compared with the text specification only where the text bytes are TextDoc.render (to_text d)"]
 
 
 def run(ctx):
     rng = ctx.rng
     nt = lambda c, i: i.startswith("(")
     cases, meta = [], []
+    tie_groups = []           # [spec_tie] (doc, enc, flavor, strategy, resolver, shape, text, binary, expected, first case, number of cases)
     n = ctx.scale(3000, 20000)
     for _ in range(n):
         doc = D.gen_doc(rng, ops=False, i64=False, allow_escape=(rng.random() < 0.15))
@@ -59,6 +77,7 @@ def run(ctx):
             else:
                 cases.append("\t".join([kind, p, strat, res, fl, shs, hx(b)]))
         meta.append((g0, len(group), et))
+        tie_groups.append((doc, enc, fl, strat, res, sh, txt, b, et, g0, len(group)))      # [spec_tie]
     impl, _ = ctx.correspond("text-vs-binary", cases, nontrivial=nt, model=False)
     base = len(impl) - len(cases)
     for (g0, k, exp) in meta:
@@ -69,6 +88,16 @@ def run(ctx):
                      [cases[g0], cases[g0 + j]], [outs[0], outs[j]], exp)
         elif outs[0] != exp:
             ctx.fail("value", "both renderings give %s, the logical document says %s" % (outs[0][:200], exp[:200]), [cases[g0], cases[g0 + 1]], outs[:2], exp)
+
+    # ---- [spec_tie] BEGIN: the Coq renderings LogicDoc.to_text / to_bin (what Props/C10_link.v is stated over) extracted and
+    # run on the documents generated above (converted to LogicDoc.ldoc + an encoding choice; see props/spectie.py):
+    # (a) D.render_bin = BinDoc.enc_doc (to_bin e d) and D.render_text = TextDoc.render (to_text d) under the gaps of the
+    # rendering, byte for byte; (b) D.expected = TextDeSpec.spec_value on to_text d = BinDoc.spec_value on to_bin e d (the
+    # conclusion of C10_spec_of_agree); (c) the text paths' values = the text specification, the binary paths' values =
+    # the binary specification.
+    from props import spectie
+    spectie.run_logic(ctx, tie_groups, cases, impl, base, ctx.scale(3000, 20000))
+    # ---- [spec_tie] END
 
     # the binary walks inside the Coq model (BinDeTape / BinDeOndemand / BinDeReader, Props/C04_walk.v, C10_walk.v)
     # on the binary renderings of this property's documents
@@ -153,6 +182,6 @@ def search(ctx):
 
 CLAIM = {
     "text": "one logical document is rendered as text and as binary and deserialized into the same runtime shape through the text slice/reader paths and the three binary paths; all results must be equal and equal to the independently computed value; Coq: see coverage.theorems",
-    "note": "Props/C10_link.v (LogicDoc.v: logical documents with a text rendering to_text and a binary rendering to_bin under an encoding choice e): (1) per-scalar agreement of the text typed hints and the binary tokens for integers in (i64::MIN, u64::MAX] on all four token widths and every target width (refusals included), yes/no vs BOOL, strings as quoted / unquoted / resolvable id, dates Y.M.D vs I32 (through C13), floats under float_ok; (2) C10_spec_agree: TextDeSpec.spec_value on to_text d = BinDoc.spec_value on to_bin e d for every shared shape and every admissible encoding choice (nested objects, arrays, duplicate keys, Option, unknown fields, Once/Last/Collect, maps, tuples, enums); (3) C10_text_bin_agree_partial: composed with the C02 and C04 walk theorems, the text tape and stream paths and the three binary paths (any fitting capacity, any fault-free schedule) return the same value; (4) C10_link_rgb_typed_agree: a colour captured as (String, Vec<uN>) is read identically by the text tape path and the binary paths for all channel values, C10_link_rgb_any_refuted / C10_link_i64_min_refuted: the two witnesses replayed by the `probes` stream. C10_shared_fits: a shared target fits the text rendering; C10_text_bytes_bin_agree_partial: the same from the text bytes under every layout (through C01_parse_render). Not proved: colours at arbitrary positions of a document (TextDeSpec has no headers), the byte-level lexing of the text STREAM path (C07) is not composed. Props/C10_walk.v: the binary specification is independent of the encoding choices and every binary path on every encoding returns it. Props/C10.v: the old Serde.v-level scalar agreement.",
+    "note": "[spec_tie] LogicDoc.to_text / to_bin and both specifications are extracted and run on the generated documents (renderings byte for byte against props/dedoc.py, TextDeSpec.spec_value = BinDoc.spec_value = dedoc.expected = the implementation's values; stream spec_tie, keys tie-text-* / tie-bin-*); LogicDoc.shared is a Prop and is not run. Props/C10_link.v (LogicDoc.v: logical documents with a text rendering to_text and a binary rendering to_bin under an encoding choice e): (1) per-scalar agreement of the text typed hints and the binary tokens for integers in (i64::MIN, u64::MAX] on all four token widths and every target width (refusals included), yes/no vs BOOL, strings as quoted / unquoted / resolvable id, dates Y.M.D vs I32 (through C13), floats under float_ok; (2) C10_spec_agree: TextDeSpec.spec_value on to_text d = BinDoc.spec_value on to_bin e d for every shared shape and every admissible encoding choice (nested objects, arrays, duplicate keys, Option, unknown fields, Once/Last/Collect, maps, tuples, enums); (3) C10_text_bin_agree_partial: composed with the C02 and C04 walk theorems, the text tape and stream paths and the three binary paths (any fitting capacity, any fault-free schedule) return the same value; (4) C10_link_rgb_typed_agree: a colour captured as (String, Vec<uN>) is read identically by the text tape path and the binary paths for all channel values, C10_link_rgb_any_refuted / C10_link_i64_min_refuted: the two witnesses replayed by the `probes` stream. C10_shared_fits: a shared target fits the text rendering; C10_text_bytes_bin_agree_partial: the same from the text bytes under every layout (through C01_parse_render). Not proved: colours at arbitrary positions of a document (TextDeSpec has no headers), the byte-level lexing of the text STREAM path (C07) is not composed. Props/C10_walk.v: the binary specification is independent of the encoding choices and every binary path on every encoding returns it. Props/C10.v: the old Serde.v-level scalar agreement.",
     "technique": "machine-checked proof in Coq over an executable model + specification oracle on the implementation",
 }
